@@ -26,7 +26,7 @@ import (
 	"verifharness/shapes"
 )
 
-func main() { Main("C01", check, exprgen.Gen, sdfgen.Gen) }
+func main() { Main("C01", check, exprgen.Gen, sdfgen.Gen, stateGen) }
 
 const imp = "From Sdfx Require Import Sdf.ShapeCorr.\nOpen Scope float_scope."
 
@@ -55,6 +55,12 @@ func search3(rng *Rng, s sdf.SDF3, n int) (v3.Vec, float64, bool) {
 	}
 	for i := 0; i < n; i++ {
 		var p v3.Vec
+		if i%8 == 7 { // wider scales: a box that is much too small has its material far outside a 2x neighbourhood
+			k := []float64{4, 12}[(i/8)%2]
+			c := bb.Center()
+			try(v3.Vec{X: c.X + rng.Uniform(-1, 1)*k*(sz.X+ext*0.2), Y: c.Y + rng.Uniform(-1, 1)*k*(sz.Y+ext*0.2), Z: c.Z + rng.Uniform(-1, 1)*k*(sz.Z+ext*0.2)})
+			continue
+		}
 		switch i % 4 {
 		case 0: // thin shell just outside one face
 			p = v3.Vec{X: rng.Uniform(bb.Min.X, bb.Max.X), Y: rng.Uniform(bb.Min.Y, bb.Max.Y), Z: rng.Uniform(bb.Min.Z, bb.Max.Z)}
@@ -102,6 +108,12 @@ func search2(rng *Rng, s sdf.SDF2, n int) (v2.Vec, float64, bool) {
 		var p v2.Vec
 		switch i % 3 {
 		case 0:
+			if i%8 == 7 { // wider scales (see search3)
+				k := []float64{4, 12}[(i/8)%2]
+				c := bb.Center()
+				p = v2.Vec{X: c.X + rng.Uniform(-1, 1)*k*(sz.X+ext*0.2), Y: c.Y + rng.Uniform(-1, 1)*k*(sz.Y+ext*0.2)}
+				break
+			}
 			p = v2.Vec{X: rng.Uniform(bb.Min.X, bb.Max.X), Y: rng.Uniform(bb.Min.Y, bb.Max.Y)}
 			eps := ext * math.Pow(10, -float64(rng.Range(1, 9)))
 			switch rng.Intn(4) {
@@ -232,6 +244,14 @@ func check(c *Ctx, r *Report) error {
 	}
 	corpusTrees(rng, one3, one2)
 	knownFindings(r, c.Repo)
+	// parameter regimes of the constructors without a model (regimes.go); own stream: the strata below keep their inputs
+	regimeStratum(c, r, NewRng(c.Seed^0x5eed0c01))
+	// histories: the caller changes the slice / parameter struct a shape was built from (history.go)
+	historyStratum(c, r, NewRng(c.Seed^0x5eed0c02))
+	// cams, flange, spiral, gear rack: model replayed at primitive floats + checker verdicts (prims.go)
+	if err := primsStratum(c, r, NewRng(c.Seed^0x5eed0c03)); err != nil {
+		return err
+	}
 
 	for k := 0; k < n3; k++ {
 		one3(g.Gen3(k%4+1), "tree3/depth<="+fmt.Sprint(k%4+1))
@@ -249,7 +269,7 @@ func check(c *Ctx, r *Report) error {
 		return err
 	}
 	r.Coverage["constructor_histogram"] = ctors
-	r.Rule = "random expression trees (depth <= 4) over 38 constructors built through the public Go API and mirrored as Coq terms; per tree: the six/four box floats and 12 Evaluate values compared with the Coq model at primitive floats, and the enclosure searched with " + fmt.Sprint(nsearch) + " points outside the box (thin shells 1e-1..1e-9 outside each face, 2x the box, edge/corner neighbourhoods). Offset/Shell only over operands in the Lb/LbInf classes and no enclosure claim under material-adding blends (see known findings). non-trivial = at least two distinct constructors in the tree; distinct by tree description."
+	r.Rule = "random expression trees (depth <= 4) over 38 constructors built through the public Go API and mirrored as Coq terms; per tree: the six/four box floats and 12 Evaluate values compared with the Coq model at primitive floats, and the enclosure searched with " + fmt.Sprint(nsearch) + " points outside the box (thin shells 1e-1..1e-9 outside each face, 2x the box, edge/corner neighbourhoods). Offset/Shell only over operands in the Lb/LbInf classes and no enclosure claim under material-adding blends (see known findings). non-trivial = at least two distinct constructors in the tree; distinct by tree description. Plus (coverage.regimes_rule) parameter regimes of the constructors without a model with parameter-derived oracles and (coverage.histories_rule) caller-slice / parameter-struct histories against a twin built from a private copy."
 	r.Trusted = append(r.Trusted, "hand model coq/Sdf/Shape.v (constructors + Evaluate) tied by differential execution at FOps; matrix code translated from the Go AST by harness/exprgen on every run",
 		"Gallina port of Go math (coq/Num/GoMath.v), itself bit-exact on >1e6 arguments")
 	r.Assumptions = append(r.Assumptions, "theorems are over the reals; float64 rounding of box coordinates is not proved (a 1e-9 relative slack is allowed in the search)")
